@@ -492,7 +492,7 @@ func c17Specs(tier string, stats *faultStats) []*Spec {
 		s.OnState = faultOracle(s, keys, stats, tier == "thorough")
 		specs = append(specs, s)
 	}
-	d := 4
+	d := 5
 	if tier == "thorough" {
 		d = 6
 	}
